@@ -188,10 +188,11 @@ def run(ctx):
                         if d.kind == "assign" and d.value is not None:
                             for cpr in au.walk_local(d.value):
                                 if isinstance(cpr, ast.Compare) and len(cpr.ops) == 1 and isinstance(cpr.ops[0], ast.Eq):
-                                    l, r = cpr.left, cpr.comparators[0]
-                                    lb = au.base_name(l)
-                                    if lb in col_of_param:
-                                        conj.append((col_of_param[lb], au.U(r)))
+                                    for l, r in ((cpr.left, cpr.comparators[0]), (cpr.comparators[0], cpr.left)):   # either spelling
+                                        lb = au.base_name(l)
+                                        if lb in col_of_param:
+                                            conj.append((col_of_param[lb], au.U(r)))
+                                            break
             cols_tested = {c for c, _ in conj}
             ctx.ob("C01.a", builder, "selector conjoins type == 'd', node == n and time_step == t",
                    {"type", "node", "time_step"} <= cols_tested and ("type", "'d'") in conj,
